@@ -41,7 +41,11 @@ def cases(draw, tier):
         grid = sorted(set([0, 1] + extra))
     if draw(st.booleans()):
         grid = sorted(set(grid + [draw(st.floats(0, 1, allow_nan=False))]))
-    return {"g": g, "cfg": cfg, "target": target, "grid": grid}
+    case = {"g": g, "cfg": cfg, "target": target, "grid": grid}
+    if draw(st.integers(0, 2)) == 0:
+        # the same grid on ONE Shaper object, in a drawn order: every answer must equal the fresh-Shaper answer
+        case["reuse_order"] = list(draw(st.permutations(range(len(grid)))))
+    return case
 
 
 def strategy(tier):
@@ -77,6 +81,19 @@ def check(case):
     nt = False
     dec = cfg.get("disable_exact_cardinality", False)
     kf_nonlit = []
+    if case.get("reuse_order"):
+        labels.add("reused-shaper")
+
+        def seq():
+            sh = sut.Shaper(**kw)
+            return [(case["grid"][i], sh.shex_graph(string_output=True, acceptance_threshold=case["grid"][i])) for i in case["reuse_order"]]
+        res, crash = sut.guarded(seq, 60)
+        if crash is not None:
+            return violation("a sequence of thresholds on one Shaper raises %s: %s although fresh Shapers succeed" % (crash.bucket, crash.msg), labels, True)
+        for t, text in res:
+            if text != texts[t]:
+                return violation("threshold %r on a reused Shaper (order %s) differs from a fresh Shaper\n--- reused ---\n%s\n--- fresh ---\n%s" % (
+                    t, [case["grid"][i] for i in case["reuse_order"]], text[:2000], texts[t][:2000]), labels, True)
     for t1, t2 in itertools.combinations(case["grid"], 2):
         a, b = docs[t1], docs[t2]
         for lab, cb in b.items():
